@@ -512,11 +512,17 @@ def plan_ops(doc: dict, man: dict, args: dict) -> list:
                     client["headers"], client["cookies"] = dict(ov_h), dict(ov_c)
                     derive.append(["with_headers", {k_: v_.replace("old", "new") for k_, v_ in ov_h.items()}])
                     derive.append(["with_cookies", {k_: v_.replace("old", "new") for k_, v_ in ov_c.items()}])
+                if r2.random() < 0.2:
+                    # the caller hands over an httpx client of their own: the operation's request still goes where the document says, through that client
+                    derive = [["set_client", {"X-Own-Client": f"own-{tok.next()}"}]]
+                    client.pop("headers", None)
+                    client.pop("cookies", None)
+                    client["own_httpx_client"] = True
                 client["derive"] = derive
                 client["context"] = r2.random() < 0.4
-                client["extra_headers"] = {k_: v_ for st in derive if st[0] == "with_headers" for k_, v_ in st[1].items()}
+                client["extra_headers"] = {k_: v_ for st in derive if st[0] in ("with_headers", "set_client") for k_, v_ in st[1].items()}
                 client["extra_cookies"] = {k_: v_ for st in derive if st[0] == "with_cookies" for k_, v_ in st[1].items()}
-                if r2.random() < 0.3 and client.get("headers"):
+                if r2.random() < 0.3 and client.get("headers") and not client.get("own_httpx_client"):
                     # ... and entries given at construction that nothing overrides stay
                     client["headers"]["X-Kept-Zq"] = "kept"
                     client["extra_headers"]["X-Kept-Zq"] = "kept"
